@@ -55,6 +55,9 @@ type Prog struct {
 	// not been used in this process before the case (bookkeeping of the generator, labels only).
 	Zones []string `json:"zones,omitempty"`
 	Cold  int      `json:"cold,omitempty"`
+	// Col: the job's base facts are not in Text but in a simplecolumn file of its own, served by a
+	// factstore.SimpleColumnStore (see column_test.go). Text empty: the job only queries that store.
+	Col *ColumnData `json:"col,omitempty"`
 }
 
 // ProgCase is a set of jobs run side by side. Observed is filled in when a run of it failed.
@@ -137,6 +140,9 @@ func runJob(p Prog, evalTime time.Time) (res []string) {
 			sort.Strings(res)
 		}()
 	}
+	if p.Col != nil && p.Text == "" {
+		return runColumnQueries(p.Col)
+	}
 	unit, err := parse.Unit(strings.NewReader(p.Text))
 	if err != nil {
 		return []string{"ERR parse: " + err.Error()}
@@ -169,6 +175,11 @@ func runJob(p Prog, evalTime time.Time) (res []string) {
 		})
 	} else {
 		st := newProgStore(p.Store)
+		if p.Col != nil {
+			if st, err = columnProgStore(p.Col, p.Store); err != nil {
+				return []string{"ERR column " + err.Error()}
+			}
+		}
 		err = engine.EvalProgram(info, st, engine.WithEvaluationTime(evalTime), engine.WithCreatedFactLimit(5000))
 		if err != nil {
 			return []string{"ERR eval: " + err.Error()}
@@ -204,7 +215,7 @@ func sameResult(a, b []string) bool {
 
 func outcome(res []string) string {
 	if len(res) >= 1 && len(res) <= 3 {
-		for _, p := range []string{"ERR parse", "ERR analysis", "ERR eval", "ERR", "PANIC"} {
+		for _, p := range []string{"ERR parse", "ERR analysis", "ERR eval", "ERR column", "ERR", "PANIC"} {
 			if strings.HasPrefix(res[0], p) {
 				return strings.ToLower(strings.ReplaceAll(p, " ", "-"))
 			}
@@ -265,6 +276,11 @@ func checkPrograms(run *stats.Run, f stats.Failer, c ProgCase, raced func() bool
 	c.Observed, c.Note = nil, ""
 	v := verdict{labels: []string{fmt.Sprintf("jobs:%d", len(c.Progs))}}
 	et := c.evalTime()
+	for _, p := range c.Progs {
+		if p.Col != nil {
+			p.Col.writeFile() // the jobs' knowledge base files exist before the jobs start
+		}
+	}
 	par := runParallel(c)
 	if raced != nil && raced() {
 		fc := c
@@ -275,7 +291,7 @@ func checkPrograms(run *stats.Run, f stats.Failer, c ProgCase, raced func() bool
 	deterministic := make([]bool, len(c.Progs))
 	texts := map[string]bool{}
 	uses := map[string]bool{}
-	okJobs, coldJobs, coldZones, zoneJobs, tzJobs := 0, 0, 0, 0, 0
+	okJobs, coldJobs, coldZones, zoneJobs, tzJobs, colJobs := 0, 0, 0, 0, 0, 0
 	for i, p := range c.Progs {
 		alone[i] = runJob(p, et)
 		deterministic[i] = true
@@ -285,6 +301,17 @@ func checkPrograms(run *stats.Run, f stats.Failer, c ProgCase, raced func() bool
 			}
 		}
 		texts[p.Text] = true
+		if p.Col != nil {
+			colJobs++
+			v.labels = append(v.labels, "column-store:"+p.Col.served())
+			if p.Col.Load {
+				v.labels = append(v.labels, "column-store:read-into")
+			}
+			if p.Text == "" {
+				b, _ := json.Marshal(p.Col)
+				texts[string(b)] = true
+			}
+		}
 		o := outcome(alone[i])
 		v.labels = append(v.labels, "shape:"+p.Shape, "alone:"+o)
 		if o == "ok" {
@@ -372,6 +399,15 @@ func checkPrograms(run *stats.Run, f stats.Failer, c ProgCase, raced func() bool
 	if zoneJobs >= 2 {
 		v.labels = append(v.labels, "zone-lookup-jobs:2+")
 	}
+	// file-backed jobs: two or more of them are what makes scans of different files run side by side
+	switch {
+	case colJobs >= 2:
+		v.labels = append(v.labels, "column-store-jobs:2+")
+	case colJobs == 1:
+		v.labels = append(v.labels, "column-store-jobs:1")
+	default:
+		v.labels = append(v.labels, "column-store-jobs:0")
+	}
 	run.Label("cold-zone-names", int64(coldZones))
 	if overlap {
 		v.labels = append(v.labels, "jobs-overlapped")
@@ -396,6 +432,10 @@ func describePrograms(c ProgCase) string {
 	var sb strings.Builder
 	for i, p := range c.Progs {
 		fmt.Fprintf(&sb, "--- job %d (%s, temporal=%v, store=%s, tz=%v, x%d)\n%s\n", i, p.Shape, p.Temporal, p.Store, p.TZ != nil, p.Iter, p.Text)
+		if p.Col != nil {
+			b, _ := json.Marshal(p.Col)
+			fmt.Fprintf(&sb, "base facts in a simplecolumn file (%s): %s\n", p.Col.served(), b)
+		}
 	}
 	return sb.String()
 }
@@ -559,6 +599,7 @@ var builtinsShape = shapeDef{shapeBuiltins, true}
 var shapes = []shapeDef{
 	builtinsShape, builtinsShape, builtinsShape, {shapeTC, false}, {shapeNeg, false}, {shapeAgg, false}, {shapeTInterval, false},
 	{shapeTSeq, false}, {shapeTOp, false}, {shapeTZ, false}, {shapeParseError, false}, {shapeAnalysisError, false},
+	{shapeColumnProgram, false}, {shapeColumnQueries, false},
 }
 
 // ---------------------------------------------------------------------------------------------
@@ -642,9 +683,20 @@ func genProgCase(t *rapid.T, minJobs, maxJobs int) ProgCase {
 	base := fmt.Sprintf("c%d", nextSerial())
 	n := rapid.IntRange(minJobs, maxJobs).Draw(t, "jobs")
 	forced := rapid.IntRange(2, 3).Draw(t, "builtin-jobs")
+	// In half of the cases 2-4 of the jobs keep their base facts in simplecolumn files of their own
+	// (column-program / column-queries), so that scans of different files run side by side; they
+	// follow two built-in-family jobs.
+	column := 0
+	if rapid.Bool().Draw(t, "column-case") {
+		column = rapid.IntRange(2, 4).Draw(t, "column-jobs")
+		forced = 2
+		if n < forced+column {
+			n = forced + column
+		}
+	}
 	for i := 0; i < n; i++ {
 		// sometimes the same job twice: identical texts go through the same pooled objects
-		if i >= forced && rapid.IntRange(0, 7).Draw(t, "dup") == 0 {
+		if i >= forced+column && rapid.IntRange(0, 7).Draw(t, "dup") == 0 {
 			c.Progs = append(c.Progs, c.Progs[rapid.IntRange(0, i-1).Draw(t, "of")])
 			continue
 		}
@@ -653,8 +705,10 @@ func genProgCase(t *rapid.T, minJobs, maxJobs int) ProgCase {
 			sfx = fmt.Sprintf("%s%c", base, 'a'+i)
 		}
 		shape := builtinsShape
-		if i >= forced {
+		if i >= forced+column {
 			shape = shapes[rapid.IntRange(0, len(shapes)-1).Draw(t, "shape")]
+		} else if i >= forced {
+			shape = columnShapes[rapid.IntRange(0, len(columnShapes)-1).Draw(t, "column-shape")]
 		}
 		c.Progs = append(c.Progs, genProg(t, shape, sfx))
 	}
